@@ -34,6 +34,9 @@ type authScript struct {
 	Flavour string    `json:"flavour"`
 	Session uint32    `json:"session"`
 	Pkts    []authPkt `json:"pkts"`
+	// After > 0: this script reuses the session id of script After-1 once that session is over on the
+	// server (final status), continuing its sequence numbers: a finished session must leave nothing behind
+	After int `json:"after,omitempty"`
 }
 
 const (
@@ -375,6 +378,12 @@ func (r *authRunner) step(i int) (ev authEvent, ok bool, err error) {
 	if r.dead || r.next[i] >= len(r.scripts[i].Pkts) || r.seq[i] > 255 {
 		return ev, false, nil
 	}
+	if a := r.scripts[i].After; a > 0 && r.next[i] == 0 {
+		r.seq[i] = r.seq[a-1] // carry on with the next odd number of the finished session
+		if r.seq[i] > 255 {
+			return ev, false, nil
+		}
+	}
 	p := r.scripts[i].Pkts[r.next[i]]
 	h := model.Header{Version: 0xc0 | p.Minor, Type: model.TypeAuthen, Seq: byte(r.seq[i]), Session: r.scripts[i].Session}
 	pkts, rest, closed, err := r.d.send(model.Frame(r.key, h, p.body()))
@@ -398,4 +407,34 @@ func (r *authRunner) step(i int) (ev authEvent, ok bool, err error) {
 		r.dead = true
 	}
 	return ev, true, nil
+}
+
+// genCleanLogin draws a login that is destined to PASS (a user of the scope with a verifying password), if
+// the world has one; ok=false otherwise.
+func genCleanLogin(t *rapid.T, w cfggen.World, scope string, session uint32) (authScript, bool) {
+	var good []string
+	for name := range w.Cfg.ScopeUsers(scope) {
+		if pw, ok := w.CorrectPassword(scope, name); ok && pw != "" && name != "" {
+			good = append(good, name)
+		}
+	}
+	if len(good) == 0 {
+		return authScript{}, false
+	}
+	sortStrings(good)
+	user := rapid.SampledFrom(good).Draw(t, "good_user")
+	pw, _ := w.CorrectPassword(scope, user)
+	sc := authScript{Session: session}
+	switch rapid.IntRange(0, 2).Draw(t, "clean_kind") {
+	case 0:
+		sc.Flavour = "pap"
+		sc.Pkts = []authPkt{{Kind: "start", Minor: 1, Start: genStart(t, 1, 2, user, pw)}}
+	case 1:
+		sc.Flavour = "ascii"
+		sc.Pkts = []authPkt{{Kind: "start", Start: genStart(t, 1, 1, user, "")}, cont(pw, 0)}
+	default:
+		sc.Flavour = "ascii-user-in-continue"
+		sc.Pkts = []authPkt{{Kind: "start", Start: genStart(t, 1, 1, "", "")}, cont(user, 0), cont(pw, 0)}
+	}
+	return sc, true
 }
